@@ -10,7 +10,11 @@ import StorageModel.C16.Lemmas
   The theorems are about the executable model in StorageModel/C16/Model.lean (checkOperation on the
   STORED flag; ProcessBeforeUpdate for updates — the error lands in the bucket before PersistEntity
   runs —, ProcessAfterUpdate for creates — the entity is already written when the check fails —,
-  ProcessBeforeDelete; CreateBaseValues writes the flag, UpdateBaseValues never does).  A history is
+  ProcessBeforeDelete; SetBaseValues / CreateBaseValues / UpdateBaseValues of boltz/base.go branch by
+  branch: CreateBaseValues writes the flag and — steered by the entity's `Migrate` field — either the
+  clock or the entity's own timestamps; UpdateBaseValues writes `updatedAt` and the tags and nothing
+  else, whatever `IsSystem` / `Migrate` / timestamps the in-memory entity carries).  `Vals` is the
+  complete in-memory entity; every theorem quantifies over all of it.  A history is
   a list of `Db.Update` bodies, each with a mode: the body aborts at the first error, or the caller
   ignores errors (except a refused create) and commits anyway.
 -/
@@ -18,41 +22,41 @@ namespace StorageModel.Properties.C16
 open StorageModel StorageModel.C16
 
 section
-variable {K N : Type} [DecidableEq K]
+variable {K N T : Type} [DecidableEq K]
 
 /-! ## refusal from an ordinary context -/
 
 /-- **create / update / delete of a system entity from an ordinary context fail**; the refused
     update and delete do not even touch the uncommitted state. -/
-theorem system_needs_system_ctx (s : St K N) (id : K) :
-    -- create with the system flag (id fresh, not blank)
-    (∀ name, s.get id = none → (step s (.create false id false true name)).err = some .sysCreate) ∧
+theorem system_needs_system_ctx (s : St K N T) (id : K) :
+    -- create with the system flag (id fresh, not blank), whatever else the entity carries
+    (∀ v : Vals N T, v.flag = true → s.get id = none → (step s (.create false id false v)).err = some .sysCreate) ∧
     -- update of an entity whose STORED flag is set, whatever the update carries
-    (∀ e flag name sn, s.get id = some e → e.isSystem = true →
-        step s (.update false id flag name sn) = { st := s, err := some .sysUpdate }) ∧
+    (∀ e (v : Vals N T) sn st, s.get id = some e → e.isSystem = true →
+        step s (.update false id v sn st) = { st := s, err := some .sysUpdate }) ∧
     -- delete
     (∀ e, s.get id = some e → e.isSystem = true →
         step s (.delete false id) = { st := s, err := some .sysDelete }) := by
   refine ⟨?_, ?_, ?_⟩
-  · intro name hg; rw [step_create_new hg]; simp
-  · intro e flag name sn hg hs; rw [step_update_found hg, hs]; simp
+  · intro v hv hg; rw [step_create_new hg, hv]; simp
+  · intro e v sn st hg hs; rw [step_update_found hg, hs]; simp
   · intro e hg hs; rw [step_delete_found hg, hs]; simp
 
 /-- … **and leave the entity unchanged**: a transaction in which such an attempt is reached
     commits nothing if its body aborts on errors; if the caller ignores the error of a refused
     update or delete and commits anyway, that operation has changed nothing (previous theorem);
     a refused create aborts the body in either mode. -/
-theorem refused_tx_unchanged (s : St K N) (k : Bool) (ops : List (Op K N)) (h : (runOps k s ops).2 = true) :
+theorem refused_tx_unchanged (s : St K N T) (k : Bool) (ops : List (Op K N T)) (h : (runOps k s ops).2 = true) :
     commitTx s (k, ops) = s := commitTx_failed h
 
-theorem refused_aborts (k : Bool) (s : St K N) (op : Op K N) (rest : List (Op K N)) (e : Err)
+theorem refused_aborts (k : Bool) (s : St K N T) (op : Op K N T) (rest : List (Op K N T)) (e : Err)
     (he : (step s op).err = some e) (hk : k = false ∨ e = .sysCreate) :
     (runOps k s (op :: rest)).2 = true := by
   rw [runOps_cons_err he]
   rcases hk with rfl | rfl <;> simp
 
 /-- runs compose: a failure anywhere in an aborting body fails the body -/
-theorem runOps_append_failed (k : Bool) (s : St K N) (pre post : List (Op K N))
+theorem runOps_append_failed (k : Bool) (s : St K N T) (pre post : List (Op K N T))
     (h : (runOps k (runOps k s pre).1 post).2 = true) (hpre : (runOps k s pre).2 = false) :
     (runOps k s (pre ++ post)).2 = true := by
   induction pre generalizing s with
@@ -72,7 +76,7 @@ theorem runOps_append_failed (k : Bool) (s : St K N) (pre post : List (Op K N))
 
 /-- the full statement at the level of a transaction: wherever in the body the refused attempt on
     a system entity sits, an aborting transaction commits nothing -/
-theorem system_needs_system_ctx_tx (s : St K N) (pre rest : List (Op K N)) (op : Op K N) (e : Err)
+theorem system_needs_system_ctx_tx (s : St K N T) (pre rest : List (Op K N T)) (op : Op K N T) (e : Err)
     (hpre : (runOps false s pre).2 = false)
     (he : (step (runOps false s pre).1 op).err = some e) :
     commitTx s (false, pre ++ op :: rest) = s := by
@@ -84,25 +88,28 @@ theorem system_needs_system_ctx_tx (s : St K N) (pre rest : List (Op K N)) (op :
 
 /-- **from a system context create, update and delete of a system entity succeed** and do what
     they say -/
-theorem system_ctx_allowed (s : St K N) (id : K) :
-    (∀ flag name, s.get id = none →
-        (step s (.create true id false flag name)).err = none ∧
-        ((step s (.create true id false flag name)).st.get id).map Ent.isSystem = some flag ∧
-        ((step s (.create true id false flag name)).st.get id).map Ent.name = some name) ∧
-    (∀ e flag name, s.get id = some e →
-        (step s (.update true id flag name true)).err = none ∧
-        (step s (.update true id flag name true)).st.get id = some { e with name := name }) ∧
+theorem system_ctx_allowed (s : St K N T) (id : K) :
+    (∀ v : Vals N T, s.get id = none →
+        (step s (.create true id false v)).err = none ∧
+        ((step s (.create true id false v)).st.get id).map Ent.isSystem = some v.flag ∧
+        ((step s (.create true id false v)).st.get id).map Ent.name = some v.name) ∧
+    (∀ e (v : Vals N T), s.get id = some e →
+        (step s (.update true id v true true)).err = none ∧
+        ((step s (.update true id v true true)).st.get id).map Ent.name = some v.name ∧
+        ((step s (.update true id v true true)).st.get id).map Ent.flag = some e.flag) ∧
     (∀ e, s.get id = some e →
         (step s (.delete true id)).err = none ∧ (step s (.delete true id)).st.get id = none) := by
   refine ⟨?_, ?_, ?_⟩
-  · intro flag name hg
+  · intro v hg
     rw [step_create_new hg]
     simp only [Bool.not_true, Bool.and_false, Bool.false_eq_true, if_false, Map.get_put, if_true, Option.map_some,
       newEnt_isSystem, true_and]
-    rfl
-  · intro e flag name hg
+    unfold newEnt persist; simp
+  · intro e v hg
     rw [step_update_found hg]
-    simp [Map.get_put]
+    simp only [Bool.not_true, Bool.and_false, Bool.false_eq_true, if_false, Map.get_put, if_true, Option.map_some,
+      persist_update_flag, true_and, and_true]
+    unfold persist; simp
   · intro e hg
     rw [step_delete_found hg]
     simp [Map.get_del]
@@ -114,16 +121,17 @@ theorem system_ctx_allowed (s : St K N) (id : K) :
     that exists at the end reads back exactly the IsSystem flag its creating `Create` call carried
     (`runHistG` runs the same history while recording, for each existing entity, the flag of the
     call that created it; `runHistG_fst` shows it computes the same states). -/
-theorem flag_immutable (h : List (Bool × List (Op K N))) (id : K) :
-    ((runHist ([] : St K N) h).get id).map Ent.isSystem = (runHistG (([] : St K N), ([] : Map K Bool)) h).2.get id := by
+theorem flag_immutable (h : List (Bool × List (Op K N T))) (id : K) :
+    ((runHist ([] : St K N T) h).get id).map Ent.isSystem = (runHistG (([] : St K N T), ([] : Map K Bool)) h).2.get id := by
   have := runHistG_flagInv (flagInv_nil (K := K) (N := N)) h id
   rw [runHistG_fst] at this
   exact this
 
-/-- the single step behind it: no update, from any context, with any flag, changes the stored flag
-    of any entity -/
-theorem update_never_changes_flag (s : St K N) (sys : Bool) (id : K) (flag : Bool) (name : N) (sn : Bool) (x : K) :
-    ((step s (.update sys id flag name sn)).st.get x).map Ent.flag = (s.get x).map Ent.flag := by
+/-- the single step behind it: **no update — from any context, whatever `IsSystem`, `Migrate`,
+    timestamps, tags and name the in-memory entity carries (`v` is the whole of it), with any field
+    checker — changes the stored flag of any entity** -/
+theorem update_never_changes_flag (s : St K N T) (sys : Bool) (id : K) (v : Vals N T) (sn st : Bool) (x : K) :
+    ((step s (.update sys id v sn st)).st.get x).map Ent.flag = (s.get x).map Ent.flag := by
   cases hg : s.get id with
   | none => rw [step_update_missing hg]
   | some e =>
@@ -131,47 +139,51 @@ theorem update_never_changes_flag (s : St K N) (sys : Bool) (id : K) (flag : Boo
     cases hc : (e.isSystem && !sys) with
     | true => simp
     | false =>
-      cases sn with
-      | false => simp
-      | true =>
-        simp only [Bool.false_eq_true, if_false, if_true]
-        rw [Map.get_put]
-        by_cases hx : id = x
-        · subst hx; simp [hg]
-        · simp [hx]
+      simp only [Bool.false_eq_true, if_false]
+      rw [Map.get_put]
+      by_cases hx : id = x
+      · subst hx; simp [hg, persist_update_flag]
+      · simp [hx]
+
+/-- the code path behind *that*: on an update `SetBaseValues` takes the `UpdateBaseValues` branch
+    (it looks at `ctx.IsCreate` only, never at the entity's `Migrate`), and that branch does not
+    touch `isSystem` nor `createdAt` -/
+theorem setBaseValues_update_keeps (v : Vals N T) (st : Bool) (e : Ent N T) :
+    (setBaseValues false v st e).flag = e.flag ∧ (setBaseValues false v st e).created = e.created ∧
+    (setBaseValues false v st e).name = e.name := ⟨rfl, rfl, rfl⟩
 
 /-! ## ordinary entities are unaffected -/
 
 /-- the same operation issued from the other kind of context -/
-def withCtx (sys : Bool) : Op K N → Op K N
-  | .create _ id blank flag name => .create sys id blank flag name
-  | .update _ id flag name sn => .update sys id flag name sn
+def withCtx (sys : Bool) : Op K N T → Op K N T
+  | .create _ id blank v => .create sys id blank v
+  | .update _ id v sn st => .update sys id v sn st
   | .delete _ id => .delete sys id
   | .read id => .read id
 
 /-- the operation concerns an ordinary entity: it does not create with the flag set and the
     entity it addresses (if any) is stored without the flag -/
-def Ordinary (s : St K N) : Op K N → Prop
-  | .create _ _ _ flag _ => flag = false
+def Ordinary (s : St K N T) : Op K N T → Prop
+  | .create _ _ _ v => v.flag = false
   | .update _ id _ _ _ => ∀ e, s.get id = some e → e.isSystem = false
   | .delete _ id => ∀ e, s.get id = some e → e.isSystem = false
   | .read _ => True
 
 /-- **ordinary entities are unaffected by the constraint**: on them every operation behaves the
     same from an ordinary and from a system context (same error, same resulting state) -/
-theorem ordinary_unaffected (s : St K N) (op : Op K N) (h : Ordinary s op) (c1 c2 : Bool) :
+theorem ordinary_unaffected (s : St K N T) (op : Op K N T) (h : Ordinary s op) (c1 c2 : Bool) :
     step s (withCtx c1 op) = step s (withCtx c2 op) := by
   cases op with
-  | create sys id blank flag name =>
-    simp only [Ordinary] at h; subst h
+  | create sys id blank v =>
+    simp only [Ordinary] at h
     simp only [withCtx]
     cases blank with
     | true => rw [step_create_blank, step_create_blank]
     | false =>
       cases hg : s.get id with
       | some e => rw [step_create_exists hg, step_create_exists hg]
-      | none => rw [step_create_new hg, step_create_new hg]; simp
-  | update sys id flag name sn =>
+      | none => rw [step_create_new hg, step_create_new hg, h]; simp
+  | update sys id v sn st =>
     simp only [withCtx]
     cases hg : s.get id with
     | none => rw [step_update_missing hg, step_update_missing hg]
@@ -190,29 +202,29 @@ theorem ordinary_unaffected (s : St K N) (op : Op K N) (h : Ordinary s op) (c1 c
 /-! ## the model refines the specification, for every history -/
 
 /-- a `Create` the spec refuses because of the flag (and for no other reason) -/
-def refusedCreate (s : SSt K N) : Op K N → Bool
-  | .create sys id blank flag _ => !blank && (s.get id).isNone && flag && !sys
+def refusedCreate (s : SSt K N T) : Op K N T → Bool
+  | .create sys id blank v => !blank && (s.get id).isNone && v.flag && !sys
   | _ => false
 
 /-- the spec's reading of a transaction body: a failing operation changes nothing; in keep-going
     mode the caller carries on unless a create was refused -/
-def srunOps (k : Bool) : SSt K N → List (Op K N) → SSt K N × Bool
+def srunOps (k : Bool) : SSt K N T → List (Op K N T) → SSt K N T × Bool
   | s, [] => (s, false)
   | s, op :: ops =>
     match sstep s op with
     | some s' => srunOps k s' ops
     | none => if k && !refusedCreate s op then srunOps k s ops else (s, true)
 
-def scommitTx (s : SSt K N) (tx : Bool × List (Op K N)) : SSt K N :=
+def scommitTx (s : SSt K N T) (tx : Bool × List (Op K N T)) : SSt K N T :=
   let r := srunOps tx.1 s tx.2
   if r.2 then s else r.1
 
-def srunHist (s : SSt K N) (txs : List (Bool × List (Op K N))) : SSt K N := txs.foldl scommitTx s
+def srunHist (s : SSt K N T) (txs : List (Bool × List (Op K N T))) : SSt K N T := txs.foldl scommitTx s
 
-theorem err_sysCreate_iff (s : St K N) (op : Op K N) :
+theorem err_sysCreate_iff (s : St K N T) (op : Op K N T) :
     (step s op).err = some .sysCreate ↔ refusedCreate (abs s) op = true := by
   cases op with
-  | create sys id blank flag name =>
+  | create sys id blank v =>
     cases blank with
     | true => rw [step_create_blank]; simp [refusedCreate]
     | false =>
@@ -220,15 +232,15 @@ theorem err_sysCreate_iff (s : St K N) (op : Op K N) :
       | some e => rw [step_create_exists hg]; simp [refusedCreate, get_abs, hg]
       | none =>
         rw [step_create_new hg]
-        cases hc : (flag && !sys) with
+        cases hc : (v.flag && !sys) with
         | true =>
           simp only [if_true, true_iff, refusedCreate, get_abs, hg]
           simp only [Bool.and_eq_true] at hc ⊢
           simp [hc.1, hc.2]
         | false =>
           simp only [Bool.false_eq_true, if_false, refusedCreate, get_abs, hg]
-          cases flag <;> cases sys <;> simp_all
-  | update sys id flag name sn =>
+          cases hf : v.flag <;> cases sys <;> simp_all
+  | update sys id v sn st =>
     cases hg : s.get id with
     | none => rw [step_update_missing hg]; simp [refusedCreate]
     | some e =>
@@ -242,7 +254,7 @@ theorem err_sysCreate_iff (s : St K N) (op : Op K N) :
       cases hc : (e.isSystem && !sys) <;> simp [refusedCreate]
   | read id => simp [step, refusedCreate]
 
-theorem runOps_refines (k : Bool) (s : St K N) (ops : List (Op K N)) :
+theorem runOps_refines (k : Bool) (s : St K N T) (ops : List (Op K N T)) :
     (runOps k s ops).2 = (srunOps k (abs s) ops).2 ∧
     ((runOps k s ops).2 = false → abs (runOps k s ops).1 = (srunOps k (abs s) ops).1) := by
   induction ops generalizing s with
@@ -275,7 +287,7 @@ theorem runOps_refines (k : Bool) (s : St K N) (ops : List (Op K N)) :
         | false => simp
         | true => simp [hc]; exact ih s
 
-theorem commitTx_refines (s : St K N) (tx : Bool × List (Op K N)) :
+theorem commitTx_refines (s : St K N T) (tx : Bool × List (Op K N T)) :
     abs (commitTx s tx) = scommitTx (abs s) tx := by
   obtain ⟨h1, h2⟩ := runOps_refines tx.1 s tx.2
   unfold commitTx scommitTx
@@ -286,9 +298,9 @@ theorem commitTx_refines (s : St K N) (tx : Bool × List (Op K N)) :
 
 /-- **for every history the committed state of the model is the state the specification
     prescribes** (entities, their system flag, their names) -/
-theorem model_refines_spec (h : List (Bool × List (Op K N))) :
-    abs (runHist ([] : St K N) h) = srunHist ([] : SSt K N) h := by
-  have : ∀ (s : St K N), abs (runHist s h) = srunHist (abs s) h := by
+theorem model_refines_spec (h : List (Bool × List (Op K N T))) :
+    abs (runHist ([] : St K N T) h) = srunHist ([] : SSt K N T) h := by
+  have : ∀ (s : St K N T), abs (runHist s h) = srunHist (abs s) h := by
     induction h with
     | nil => intro s; rfl
     | cons tx txs ih =>
@@ -302,24 +314,32 @@ theorem model_refines_spec (h : List (Bool × List (Op K N))) :
 
 end
 
-/-! ## non-vacuity (ids and names = Nat) -/
+/-! ## non-vacuity (ids, names, timestamps = Nat) -/
 
-/-- system ctx creates system entity 1 and ordinary entity 2; an ordinary transaction tries to
-    update 1 with a flipped flag (ignored error, committed), updates 2 carrying IsSystem = true,
-    tries to delete 1; a system transaction renames 1 -/
-def demoHist : List (Bool × List (Op Nat Nat)) :=
-  [(false, [.create true 1 false true 10, .create false 2 false false 20]),
-   (true, [.update false 1 false 11 true, .update false 2 true 21 true, .delete false 1]),
-   (false, [.update true 1 false 12 true])]
+def vals (flag migrate : Bool) (name : Nat) : Vals Nat Nat :=
+  { flag := flag, migrate := migrate, cAt := 1000, uAt := 2000, tags := some name, name := name }
 
-example : (runHist [] demoHist).get 1 = some { flag := some true, name := 12 } := by decide
-example : (runHist [] demoHist).get 2 = some { flag := none, name := 21 } := by decide
+/-- system ctx creates system entity 1 (migrated: carries its own timestamps) and ordinary entity 2;
+    an ordinary transaction tries to update 1 with a flipped flag (ignored error, committed),
+    updates 2 carrying IsSystem = true AND Migrate = true, tries to delete 1; a system transaction
+    renames 1 -/
+def demoHist : List (Bool × List (Op Nat Nat Nat)) :=
+  [(false, [.create true 1 false (vals true true 10), .create false 2 false (vals false false 20)]),
+   (true, [.update false 1 (vals false false 11) true true, .update false 2 (vals true true 21) true false,
+           .delete false 1]),
+   (false, [.update true 1 (vals false true 12) true true])]
+
+example : (runHist [] demoHist).get 1 =
+    some { flag := some true, name := 12, tags := some 12, created := .given 1000, updated := .now } := by decide
+example : (runHist [] demoHist).get 2 =
+    some { flag := none, name := 21, tags := some 20, created := .now, updated := .now } := by decide
 example : (runHistG ([], []) demoHist).2.get 1 = some true ∧ (runHistG ([], []) demoHist).2.get 2 = some false := by decide
 example : (step (runHist [] demoHist) (.delete false 1)).err = some .sysDelete := by decide
-example : (step (runHist [] demoHist) (.create false 3 false true 30)).err = some .sysCreate := by decide
-example : Ordinary (runHist [] demoHist) (.update false 2 true 5 true) := by
+example : (step (runHist [] demoHist) (.create false 3 false (vals true false 30))).err = some .sysCreate := by decide
+example : Ordinary (runHist [] demoHist) (.update false 2 (vals true true 5) true true) := by
   intro e he
-  have : (runHist [] demoHist).get 2 = some { flag := none, name := 21 } := by decide
+  have : (runHist [] demoHist).get 2 =
+      some { flag := none, name := 21, tags := some 20, created := .now, updated := .now } := by decide
   rw [this] at he; cases he; rfl
 
 end StorageModel.Properties.C16
@@ -328,5 +348,6 @@ end StorageModel.Properties.C16
 #print axioms StorageModel.Properties.C16.system_needs_system_ctx_tx
 #print axioms StorageModel.Properties.C16.system_ctx_allowed
 #print axioms StorageModel.Properties.C16.flag_immutable
+#print axioms StorageModel.Properties.C16.update_never_changes_flag
 #print axioms StorageModel.Properties.C16.ordinary_unaffected
 #print axioms StorageModel.Properties.C16.model_refines_spec
